@@ -84,7 +84,7 @@ CHECKS['C13'] = dict(
         'quick': dict(count=40000, mode='C13', budget_s=300),
         'thorough': dict(count=1500000, mode='C13', budget_s=2400),
     },
-    rule=('run = one seeded history over 2..7 module versions that export, import and redefine the names f,g,h (every definition carries a '
+    rule=('run = one seeded history over 2..7 module versions that export, import and redefine the function names f,g,h and the data items d1,d2 (every definition carries a '
           'unique salt; every module has an entry function that calls its imports and folds the results): MIR_scan_string + MIR_load_module '
           'in a seeded order, MIR_load_external(name, one of 8 native functions), MIR_set_func_redef_permission, MIR_link with interface '
           'none/interp/eager gen/lazy gen and with or without a resolver call-back that knows a per-run subset of the names, and observations '
@@ -92,7 +92,7 @@ CHECKS['C13'] = dict(
           'queue, per-(module, import) binding fixed when its link step completes; expected MIR_repeated_decl_error / MIR_undeclared_op_ref_error. '
           'non-trivial = at least 3 ops executed AND a link step ran with generated/interpreted code observed or an expected error verified; '
           'distinct = distinct hash of (knobs, program, ops).'),
-    probes=['c13_export_over_export', 'c13_external_over_export', 'c13_export_over_external', 'c13_observe_old_binding_after_redefinition',
+    probes=['c13_data_redefined', 'c13_export_over_export', 'c13_external_over_export', 'c13_export_over_external', 'c13_observe_old_binding_after_redefinition',
             'resolver_consulted', 'expected_error_reported', 'link_with_3_pending_modules', 'link_without_interface_keeps_modules_pending', 'dont_care_error', 'relink_with_changed_binding'],
     components_real=_LC_REAL, components_stubbed=_LC_STUB,
     assumptions=['declared don\'t-care 1: the first exported function loaded after an external of the same name without redefinition permission (the code rejects it, the statement is silent)',
